@@ -36,7 +36,11 @@ PROVED = ("for EVERY byte string and EVERY finite schedule of GetData(k)/GetInte
           "invariant and re-establish it, EndOfStream / GetBitReadPos / the constructor's size arithmetic and 2^61 guard; HuffLZ: "
           "WriteCharToBuffer (store index, (w+1) mod 4096), GetInternalBuffer (pointer offset, size, new read index), the first test of "
           "FillDecompressBuffer's loop (unread < maxFill), GetRepeatOffset's arithmetic (upper*64 + low 6 bits) equal put / getInternal / "
-          "fillLoop's guard / repeatOffset; each lemma is vacuous when its function leaves the translator's fragment")
+          "fillLoop's guard / repeatOffset; CopyAvailableData (C04_gen_copyAvailable, from the index/length lemma "
+          "C04_gen_copyAvailable_extents: for every window state with w, r < 4096 and every size_t request the returned count and the new "
+          "m_BuffReadIndex are those of the model's copyAvailable, each of the (at most two) memcpy that moves bytes stays inside the "
+          "4096-byte buffer and writes at destination offset 0 / directly behind the first, and the bytes they read, in destination "
+          "order, are exactly the bytes the model delivers); each lemma is vacuous when its function leaves the translator's fragment")
 PARTIAL = ("the encoder round-trip theorem is about the Lean encoder Spec.encode (own copy of the adaptive tree, MSB-first packing); the "
            "harness's Python / C++ encoders are tied to it by the three-encoder / payload-prefix correspondence, and payloads longer "
            "than 65214 tokens (where the counters fill) are outside the theorem; the reference decoder shares the symbol decoding (tree walk along the bit stream, tree update, offset code) with the "
